@@ -116,6 +116,7 @@ func runC04(c *core.Ctx) {
 				if c.Want(caseID) {
 					c04Case(c, t, ch, k, 0, k, caseID, -1)
 					c04Case(c, t, ch, k, 1, k-1, caseID+"/w", -1)
+					c04Case(c, t, ch, k, 0, k, caseID+"/from-zero-capacity", -2)
 				}
 			}
 		}
@@ -214,13 +215,26 @@ func c04CaseBody(c *core.Ctx, t *dyn.TypeOps, ch, k, s, e int, caseID string, fo
 	inst := "AppendSample[" + t.Name + "]"
 	w := mon.NewWorld(t)
 	b := t.Alloc(signal.Allocator{Channels: ch, Length: k, Capacity: k})
-	if forceCalls < 0 {
+	if forceCalls == -1 {
 		// the parent reached its k frames through a growing Append (whatever
 		// capacity that growth produced)
 		forceCalls = 0
 		b = t.Alloc(signal.Allocator{Channels: ch, Length: 1, Capacity: 1})
 		b.Append(t.Alloc(signal.Allocator{Channels: ch, Length: k - 1, Capacity: k - 1}))
 		c.Obs("parents_grown_by_append", 1)
+	} else if forceCalls == -2 {
+		// the parent had no storage at all and got its k frames from one Append
+		// of a source that has spare capacity and stays alive in the world
+		forceCalls = 0
+		b = t.Alloc(signal.Allocator{Channels: ch})
+		src := t.Alloc(signal.Allocator{Channels: ch, Length: k, Capacity: k + 2})
+		sall := src.RawAll()
+		for i := 0; i < sall.Len(); i++ {
+			sall.Set(i, w.NextStamp())
+		}
+		w.Adopt(src, "source-of-the-first-append")
+		b.Append(src)
+		c.Obs("parents_that_got_their_storage_from_an_append_to_a_zero_capacity_buffer", 1)
 	}
 	all := b.RawAll()
 	for i := 0; i < all.Len(); i++ {
@@ -242,6 +256,18 @@ func c04CaseBody(c *core.Ctx, t *dyn.TypeOps, ch, k, s, e int, caseID string, fo
 	}
 	capv := win.M.Cap - win.M.Len
 	d := map[string]any{"type": t.Name, "channels": ch, "parent_frames": k, "window": []int{s, e}, "spare_samples": capv}
+	if (s+e+ch)%3 == 0 {
+		// the window is first offered to a pool of another total capacity, which
+		// has to refuse it (C15 decides whether it panics); the window is then
+		// appended to as if nothing had happened
+		fp := t.PoolAlloc(signal.Allocator{Channels: ch, Length: 0, Capacity: win.M.Cap/ch + 1})
+		core.Guard(func() { fp.Put(win.B) })
+		c.Obs("windows_offered_to_a_foreign_pool_before_the_appends", 1)
+		if ps := w.CheckAll(); len(ps) > 0 {
+			report(c, inst+"|after-a-refused-put", caseID, ps, d)
+			return
+		}
+	}
 	counts := []int{0, 1, capv - 1, capv, capv + 1, 3*capv + 7}
 	if forceCalls > 0 {
 		counts = []int{forceCalls}
